@@ -59,8 +59,29 @@ fn rbf(arr: &ArrDesc, cost: u64) -> DynRbf {
 }
 
 /// RBF of an independent callback with its own cost model.
+/// A cost model the *user* wrote against the public trait: it forwards `job_cost_iter` to the
+/// callback's real model and relies on the trait's DEFAULT `cost_of_jobs` and `least_wcet`.
+struct UserCostWrap(Box<dyn JobCostModel>);
+
+impl JobCostModel for UserCostWrap {
+    fn job_cost_iter<'a>(&'a self) -> Box<dyn Iterator<Item = response_time_analysis::time::Service> + 'a> {
+        self.0.job_cost_iter()
+    }
+}
+
+/// The callback's cost model as handed to the analyses: every third callback (a function of the
+/// callback, so replay files reproduce it) goes through [UserCostWrap].
+fn cost_model_of(cb: &CbDesc) -> Box<dyn JobCostModel> {
+    let inner = cb.cost_desc().build();
+    if (cb.wcet + cb.prio as u64) % 3 == 0 {
+        Box::new(UserCostWrap(inner))
+    } else {
+        inner
+    }
+}
+
 fn rbf_cb(cb: &CbDesc) -> DynRbf {
-    RBF::new(cb.arr.as_ref().unwrap().build(), cb.cost_desc().build())
+    RBF::new(cb.arr.as_ref().unwrap().build(), cost_model_of(cb))
 }
 
 pub struct Bounds {
@@ -227,7 +248,7 @@ pub fn rtss_fixed_point(wl: &RosWorkload, which: Analysis) -> FixedPoint {
         let costs: Vec<Box<dyn JobCostModel>> = wl
             .cbs
             .iter()
-            .map(|c| c.cost_desc().build())
+            .map(cost_model_of)
             .collect();
         // the priority VALUES handed to the analysis only have to be order-isomorphic to the
         // executor's registration order: half of the workloads use negative values
